@@ -268,6 +268,15 @@ def getResolvedWith (H : Hierarchy) (bp : Nat → Members) (b : Base) : Members 
 def basesMembersOf (res : Base → Members) (bases : List Base) : Members :=
   bases.reverse.foldl (fun acc b => res b ++ acc) []
 
+/-- the value of one member in the dict comprehension that ends
+    `_get_members_by_parents`:
+    `bases_members[key] if key in bases_members and key not in overriden
+       and (is_generic(value) or isinstance(value, TypeVar)) else value` -/
+def pickMember (basesMembers : Members) (overridden : List Key) (k : Key) (v : Hint) : Hint :=
+  match basesMembers.lookup k with
+  | some bv => if !overridden.contains k && v.isGeneric then bv else v
+  | none => v
+
 /-- `_get_members_by_parents`; `fuel` bounds the depth of the hierarchy. -/
 def byParents (H : Hierarchy) : Nat → Nat → Members
   | 0, c => (rawStorage H c).members
@@ -276,11 +285,7 @@ def byParents (H : Hierarchy) : Nat → Nat → Members
     if !st.members.any (fun kv => kv.2.hasTV) then st.members
     else
       let basesMembers := basesMembersOf (getResolvedWith H (byParents H fuel)) (origBases H c)
-      st.members.map fun kv =>
-        (kv.1,
-          match basesMembers.lookup kv.1 with
-          | some bv => if !st.overridden.contains kv.1 && kv.2.isGeneric then bv else kv.2
-          | none => kv.2)
+      st.members.map fun kv => (kv.1, pickMember basesMembers st.overridden kv.1 kv.2)
 
 /-- `GenericResolver.get_resolved_members(tp).members` for `tp = C`, `C[args]` -/
 def resolve (H : Hierarchy) (tgt : Base) : Members :=
